@@ -17,7 +17,7 @@ cd /verif; git -C /repo worktree remove --force $WT
 echo "== checks against the seeded change"
 git -C /repo apply $S/patch.diff
 for c in $checks; do
-  out=$(VERIF_PAR=${VERIF_PAR:-8} ./check $c 2>&1); rc=$?
+  out=$(VERIF_EVIDENCE_DEV=1 VERIF_PAR=${VERIF_PAR:-8} ./check $c 2>&1); rc=$?
   echo "CHECK $c rc=$rc $(echo "$out" | grep -m1 -E 'rapid\] (failed|panic) after' | cut -c1-260)"
 done
 git -C /repo checkout -- .
